@@ -422,8 +422,7 @@ package modeling
 //@ spec topoOK(m Mesh) bool = (m.topology == TriangleTopology ==> len(m.indices) % 3 == 0) && (m.topology == QuadTopology ==> len(m.indices) % 4 == 0)
 // a mesh without any attribute has no indices (the mention of indices[0] only gives the provers a term to work with)
 //@ spec emptyOK(m Mesh) bool = noAttrs(m) ==> len(m.indices) == 0 || m.indices[0] < 0
-// wf does not include emptyOK: operations that need it (vertex compaction) state it as a precondition of their own
-//@ spec wf(m Mesh) bool = sameLen(m) && idxOK(m) && topoOK(m)
+//@ spec wf(m Mesh) bool = sameLen(m) && idxOK(m) && emptyOK(m) && topoOK(m)
 
 //@ spec sameAttrs(r Mesh, m Mesh) bool = r.v1Data == m.v1Data && r.v2Data == m.v2Data && r.v3Data == m.v3Data && r.v4Data == m.v4Data
 
@@ -633,7 +632,10 @@ package modeling
 //@   ensures material_count: len(r.materials) == len(m.materials) + len(other.materials)
 //@   ensures first_indices_kept: forall i int :: 0 <= i && i < len(m.indices) ==> r.indices[i] == m.indices[i]
 //@   ensures second_indices_shifted: forall a int :: attrLenIs(m, a) ==> forall i int :: 0 <= i && i < len(other.indices) ==> r.indices[len(m.indices) + i] == other.indices[i] + a
-//@   ensures [C02] well_formed: wf(m) && wf(other) ==> wf(r)
+//@   ensures [C02] well_formed_lengths: wf(m) && wf(other) ==> sameLen(r)
+//@   ensures [C02] well_formed_indices: wf(m) && wf(other) ==> idxOK(r)
+//@   ensures [C02] well_formed_topology: wf(m) && wf(other) ==> topoOK(r)
+//@   ensures [C02] well_formed_empty: wf(m) && wf(other) ==> emptyOK(r)
 //@   loop 1:
 //@     invariant bounds: len(m.indices) <= i && i <= len(finalTris) && len(finalTris) == len(m.indices) + len(other.indices) && fresh(finalTris) && attrLenIs(m, mAtrLength)
 //@     invariant first: forall j int :: 0 <= j && j < len(m.indices) ==> finalTris[j] == m.indices[j]
